@@ -526,7 +526,7 @@ func TestFairness(t *testing.T) {
 // logged for a long time although the driver is waiting for a step of the
 // real code to finish.
 func stallWatchdog(tr *common.Trace) {
-	limit := time.Duration(common.EnvInt("VERIF_STALL_SECS", 180)) * time.Second
+	limit := time.Duration(common.EnvInt("VERIF_STALL_SECS", 600)) * time.Second
 	tr.Watchdog(limit, func() common.Ev {
 		return common.Ev{"ev": "stall", "seconds": int(limit / time.Second)}
 	})
